@@ -22,6 +22,9 @@ SOURCES = [
     '<i>&lt;\n>"\n',
     'x' * 300 + '\nyz\n',
     'a \\& b\n\\dev c\n',
+    'ab\ncd  ',                                     # no final line break, trailing blanks
+    'ab\n\n\n',                                     # trailing empty lines
+    'a\x0cb\nc\u2028d\ne\x85f\x0bg\nh\x1ci\n',           # characters that str.splitlines() - but not the shell - treats as line breaks
 ]
 LENGTHS = [0, 1, 2, 4, 7]
 CONTEXTS = [0, 1, 2, -1]
